@@ -130,6 +130,28 @@ def run(ctx):
     chk.ob("C02.a", "GLOBAL_RECORDER [who-may-use]", users == want_users, f"used only by {sorted(u.split('::')[-1] for u in users)}" if users == want_users else f"the static is used by {sorted(users)}; expected exactly {sorted(want_users)}")
     chk.ob("C02.a", "RecorderOnceCell state [who-may-write]", writers <= {strip_generics(sgr.path)}, "only set_global_recorder writes the cell's state" if writers <= {strip_generics(sgr.path)} else f"the state is also written by {sorted(writers - {strip_generics(sgr.path)})}")
 
+    # the state word is reached only by the operations counted above: a reference to it is never stored in a value or
+    # handed to other code (a guard object holding `&state` writes it from its destructor, unseen by the election)
+    sfield = next((x[2] for x in sym_walk(cas[0][2]) if isinstance(x, tuple) and len(x) >= 3 and x[0] == "field" and isinstance(x[2], str)), None)
+    if sfield:
+        def _state_ref(x):
+            if not (isinstance(x, tuple) and x and x[0] == "ref"):
+                return False
+            y = strip_sym(x)  # `&*&state`: a re-borrow is the same reference
+            return isinstance(y, tuple) and len(y) >= 3 and y[0] == "field" and y[2] == sfield and _mentions_static(x, GLOBAL)
+
+        leaks = []
+        for g_ in list(sgr.region()) + list(load.region()) + (list(m.fn("metrics::recorder::with_recorder").region()) if m.fn("metrics::recorder::with_recorder") else []):
+            sg = Sym(g_)
+            for c in g_.body.calls():
+                for i_, a_ in enumerate(c.args):
+                    if _state_ref(sg.operand(a_)) and not (i_ == 0 and "sync::atomic::Atomic" in (c.resolved or c.callee or "")):
+                        leaks.append((f"passed to {strip_generics(c.resolved or c.callee or '?').split('::')[-1]}()", f"{g_.file}:{c.line}"))
+            for i_, k_, st in g_.body.stmts():
+                if st["k"] == "assign" and st["rv"]["k"] == "agg" and any(_state_ref(sg.operand(o_)) for o_ in st["rv"].get("ops") or []):
+                    leaks.append((f"stored in a {st['rv'].get('adt') or st['rv'].get('agg')} value", f"{g_.file}:{st.get('ln')}"))
+        chk.ob("C02.a", "RecorderOnceCell state [no alias of the state word]", not leaks, "references to the state are only ever the receiver of an atomic operation" if not leaks else f"a reference to the state word is {leaks[0][0]}: whatever holds it can write the state outside the election (e.g. a reset-on-drop guard that re-opens the election while the winner is still installing)", leaks[0][1] if leaks else sgr.loc(), nontrivial=False)
+
     # emissions without a local recorder read the cell on every call (no per-thread or global cache of a miss)
     wrf = m.fn("metrics::recorder::with_recorder")
     if need(chk, "C02.a", "with_recorder", wrf):
